@@ -704,7 +704,7 @@ func TestC34(t *testing.T) {
 	})
 
 	// Seeded random larger trees.
-	r.ForEach("random", r.Pick(2000, 40000), 8, func(i int, rng *rand.Rand) {
+	r.ForEach("random", r.Pick(1600, 40000), 8, func(i int, rng *rand.Rand) {
 		var tr ht.Tree
 		switch x := rng.Intn(20); {
 		case x == 0:
